@@ -125,11 +125,43 @@ impl Component for P {
     type Storage = VecStorage<Self>;
 }
 
-#[derive(Clone, Debug, PartialEq, ConvertSaveload)]
+#[derive(Clone, Debug, PartialEq)]
 pub struct R {
     pub a: Entity,
     pub b: Entity,
 }
+/// `R` converts with a HAND-WRITTEN, FALLIBLE `ConvertSaveload` (the derive — exercised by `E` here and by C18's harness —
+/// can only panic on an entity without marker): a reference to an unmarked entity is an `Err`, which the plain `serialize`
+/// must hand on as a failure of the whole save (the transcript shows it as `panic`, like the derive's outcome).
+#[derive(Serialize, Deserialize, Clone, Debug)]
+#[serde(bound = "MA: Marker")]
+pub struct RSaveloadData<MA: Marker> {
+    pub a: MA,
+    pub b: MA,
+}
+#[derive(Debug)]
+pub struct NoMarker;
+impl fmt::Display for NoMarker {
+    fn fmt(&self, f: &mut fmt::Formatter) -> fmt::Result { write!(f, "verif-no-marker") }
+}
+impl<M: Marker> ConvertSaveload<M> for R {
+    type Data = RSaveloadData<M>;
+    type Error = NoMarker;
+    fn convert_into<F: FnMut(Entity) -> Option<M>>(&self, mut ids: F) -> Result<Self::Data, NoMarker> {
+        Ok(RSaveloadData { a: ids(self.a).ok_or(NoMarker)?, b: ids(self.b).ok_or(NoMarker)? })
+    }
+    fn convert_from<F: FnMut(M) -> Option<Entity>>(data: Self::Data, mut ids: F) -> Result<Self, NoMarker> {
+        Ok(R { a: ids(data.a).ok_or(NoMarker)?, b: ids(data.b).ok_or(NoMarker)? })
+    }
+}
+/// Error type of component conversion during serialisation.
+#[derive(Debug)]
+pub enum SerErr { NoMarker }
+impl fmt::Display for SerErr {
+    fn fmt(&self, f: &mut fmt::Formatter) -> fmt::Result { write!(f, "verif-no-marker") }
+}
+impl From<Infallible> for SerErr { fn from(e: Infallible) -> Self { match e {} } }
+impl From<NoMarker> for SerErr { fn from(_: NoMarker) -> Self { SerErr::NoMarker } }
 impl Component for R {
     type Storage = DenseVecStorage<Self>;
 }
@@ -150,14 +182,13 @@ type SM = SimpleMarker<Tag>;
 type Comps<M> = (Option<P>, Option<RSaveloadData<M>>, Option<ESaveloadData<M>>);
 type Recs<M> = Vec<EntityData<M, Comps<M>>>;
 
-/// Error type of component conversion during deserialisation (never constructed).
+/// Error type of component conversion during deserialisation (never constructed: the loader's id mapping always answers).
 #[derive(Debug)]
-enum DeErr {}
+enum DeErr { NoMarker }
 impl fmt::Display for DeErr {
-    fn fmt(&self, _: &mut fmt::Formatter) -> fmt::Result {
-        match *self {}
-    }
+    fn fmt(&self, f: &mut fmt::Formatter) -> fmt::Result { write!(f, "verif-no-marker") }
 }
+impl From<NoMarker> for DeErr { fn from(_: NoMarker) -> Self { DeErr::NoMarker } }
 impl From<Infallible> for DeErr {
     fn from(e: Infallible) -> Self {
         match e {}
@@ -653,7 +684,8 @@ fn joined(world: &World) -> Vec<Entity> {
 }
 
 /// Ok(text) / Err(()) when the serializer returned Err; panics propagate.
-fn ser_world<M: MK>(world: &World, rec: bool, ron: bool) -> Result<String, ()> {
+/// `Err(true)`: the save was refused because a converted reference had no marker (the hand-written conversion of `R`).
+fn ser_world<M: MK>(world: &World, rec: bool, ron: bool) -> Result<String, bool> {
     let mut buf: Vec<u8> = Vec::new();
     let ok = {
         let ents = world.entities();
@@ -664,27 +696,26 @@ fn ser_world<M: MK>(world: &World, rec: bool, ron: bool) -> Result<String, ()> {
             let mut markers = world.write_storage::<M>();
             let mut alloc = world.write_resource::<M::Allocator>();
             if ron {
-                let mut ser = ron::ser::Serializer::new(&mut buf, None).map_err(|_| ())?;
-                SerializeComponents::<Infallible, M>::serialize_recursive(&(&p, &r, &e), &ents, &mut markers, &mut *alloc, &mut ser).is_ok()
+                let mut ser = ron::ser::Serializer::new(&mut buf, None).map_err(|_| false)?;
+                SerializeComponents::<SerErr, M>::serialize_recursive(&(&p, &r, &e), &ents, &mut markers, &mut *alloc, &mut ser).map(|_| ()).map_err(|e| e.to_string().contains("verif-no-marker"))
             } else {
                 let mut ser = serde_json::Serializer::new(&mut buf);
-                SerializeComponents::<Infallible, M>::serialize_recursive(&(&p, &r, &e), &ents, &mut markers, &mut *alloc, &mut ser).is_ok()
+                SerializeComponents::<SerErr, M>::serialize_recursive(&(&p, &r, &e), &ents, &mut markers, &mut *alloc, &mut ser).map(|_| ()).map_err(|e| e.to_string().contains("verif-no-marker"))
             }
         } else {
             let markers = world.read_storage::<M>();
             if ron {
-                let mut ser = ron::ser::Serializer::new(&mut buf, None).map_err(|_| ())?;
-                SerializeComponents::<Infallible, M>::serialize(&(&p, &r, &e), &ents, &markers, &mut ser).is_ok()
+                let mut ser = ron::ser::Serializer::new(&mut buf, None).map_err(|_| false)?;
+                SerializeComponents::<SerErr, M>::serialize(&(&p, &r, &e), &ents, &markers, &mut ser).map(|_| ()).map_err(|e| e.to_string().contains("verif-no-marker"))
             } else {
                 let mut ser = serde_json::Serializer::new(&mut buf);
-                SerializeComponents::<Infallible, M>::serialize(&(&p, &r, &e), &ents, &markers, &mut ser).is_ok()
+                SerializeComponents::<SerErr, M>::serialize(&(&p, &r, &e), &ents, &markers, &mut ser).map(|_| ()).map_err(|e| e.to_string().contains("verif-no-marker"))
             }
         }
     };
-    if ok {
-        Ok(String::from_utf8(buf).unwrap_or_else(|_| harness_bug("serialised text is not utf-8".into())))
-    } else {
-        Err(())
+    match ok {
+        Ok(()) => Ok(String::from_utf8(buf).unwrap_or_else(|_| harness_bug("serialised text is not utf-8".into()))),
+        Err(no_marker) => Err(no_marker),
     }
 }
 
@@ -933,7 +964,7 @@ impl<M: MK> Exec<M> {
             Op::Serialize(w, rec) => {
                 if M::UUID && *w == 1 && *rec { return "skip".into(); }
                 match ser_world::<M>(&self.worlds[*w], *rec, self.ron) {
-                    Err(()) => "fail".into(),
+                    Err(no_marker) => if no_marker { "panic".into() } else { "fail".into() },
                     Ok(text) => {
                         self.texts.push(text.clone());
                         let data = match parse_text::<M>(&text, self.ron) { Some(d) => d, None => return "fail".into() };
@@ -962,7 +993,7 @@ impl<M: MK> Exec<M> {
             }
             Op::Roundtrip(w, rec) => {
                 if M::UUID && *w == 1 && *rec { return "skip".into(); }
-                let text = match ser_world::<M>(&self.worlds[*w], *rec, self.ron) { Ok(t) => t, Err(()) => return "fail".into() };
+                let text = match ser_world::<M>(&self.worlds[*w], *rec, self.ron) { Ok(t) => t, Err(no_marker) => return if no_marker { "panic".into() } else { "fail".into() } };
                 self.texts.push(text.clone());
                 let fresh = new_world::<M>();
                 if !de_world::<M>(&fresh, &text, self.ron) { return "fail".into(); }
